@@ -6,6 +6,7 @@ assignment of attempt outcomes (failover); then the instantiation at the regener
 -/
 import Olla.Model.Passthrough
 import Olla.Spec.C14
+import Olla.Spec.State
 
 namespace Olla.Props.C14
 open Olla.Model.Retry Olla.Model.Passthrough Olla.Spec.C14
@@ -370,5 +371,15 @@ example : ((run true exSupport (fun b => 0 :: b) true (fun l => l.head?)
 example : ((run true exSupport (fun b => 0 :: b) true (fun l => l.head?)
     (fun e => if e = 0 then .ok ⟨200, [], []⟩ else .failBefore true) [⟨0, "openai"⟩, ⟨1, "vllm"⟩, ⟨2, "ollama"⟩] [7]).result) = .exhausted := by decide
 example : SelectContract (fun l => l.head?) := by intro l e h; cases l <;> simp_all
+
+/-! ### tie: no process-wide state on the modelled path
+
+The theorems above are about single calls (or the history of one object). They cover every
+request of a running process only if a call reaches no state that outlives it besides that
+object. `Olla.Gen.State` is re-read from the source on every run: the package-level variables
+reachable from each function inside its package that the package changes after initialisation. -/
+theorem C14_tie_no_process_wide_state :
+    Olla.Spec.State.reachesOnly "handlers.translationHandler" [] = true ∧
+    Olla.Spec.State.reachesOnly "inspector.extractModelName" [] = true := by decide
 
 end Olla.Props.C14
